@@ -89,6 +89,16 @@ type Window struct {
 	Start int64 `json:"start"`
 	End   int64 `json:"end"`
 	Step  int64 `json:"step"`
+	// SubNs: nanoseconds (< 1e6) added to start, end and step when the query is created:
+	// times handed to the engines need not be whole milliseconds; evaluation is on the
+	// millisecond grid of the truncated values.
+	SubNs [3]int64 `json:"sub_ns,omitempty"`
+}
+
+// SubMs returns w with sub-millisecond fractions on start, end and step.
+func (w Window) SubMs(start, end, step int64) Window {
+	w.SubNs = [3]int64{start, end, step}
+	return w
 }
 
 func (w Window) Instant() bool { return w.Step == 0 }
